@@ -281,6 +281,7 @@ class FnWalk:
             self.alias_out[i] = (o, d)
         self.aliased_outs = set(o for (o, i, d) in pattern)
         self.binds = {}         # local id -> Path (reference / pointer locals)
+        self.ptrstore = {}      # root of a local object -> [Path pointees stored into pointer-typed fields/elements of it]
         self.env = {}           # local id -> ('c', v) | ('a', ...) for induction variables
         self.iters = 0
         self.loop_counter = 0
@@ -459,6 +460,12 @@ class FnWalk:
                     return Path(('deref-global', inner.get('g')), (), psize, None, loc_str(inner))
             lv = self.lvalue(inner)
             if lv is not None:
+                cands = self.ptrstore.get(lv.root)
+                if cands:
+                    # a pointer read back from a local table/struct: it may be any pointer stored there; for hazard
+                    # detection the conservative choice is one that designates an aliased input
+                    best = [c for c in cands if c.from_input is not None] or cands
+                    return best[0].with_size(psize)
                 # pointer stored in a field: a distinct heap object identified by where the pointer lives
                 return Path(('deref', lv.key()), (), psize, None, loc_str(inner))
             return None
@@ -652,6 +659,12 @@ class FnWalk:
                 self.env.pop(l['id'], None)
 
     def track_assign(self, e):
+        l0 = e['lhs']
+        if (l0.get('t') or {}).get('k') == 'ptr' and strip(l0).get('k') in ('index', 'member') and e.get('op') == '=':
+            lv = self.lvalue(l0)
+            pp = self.pointer(e['rhs'])
+            if lv is not None and pp is not None and lv.root[0] == 'local':
+                self.ptrstore.setdefault(lv.root, []).append(pp)
         l = strip(e['lhs'])
         if l.get('k') == 'ref' and l.get('rk') == 'local':
             t = l.get('t') or {}
@@ -869,6 +882,12 @@ class FnWalk:
                 t = v.get('t') or {}
                 if init is not None:
                     self.expr(init, W)
+                    if t.get('k') in ('array', 'record') and v.get('id') is not None:
+                        for x in walk(init):
+                            if x.get('k') in ('un', 'cast', 'load') and (x.get('t') or {}).get('k') == 'ptr':
+                                pp = self.pointer(x)
+                                if pp is not None and pp.root[0] in ('slot', 'local'):
+                                    self.ptrstore.setdefault(('local', v['id']), []).append(pp)
                     if t.get('k') == 'ref':
                         p = self.lvalue(strip_casts_keep_base(init))
                         if p is not None:
